@@ -1,15 +1,21 @@
-import Zlink.Proofs.IdlLex
+import Zlink.Proofs.IdlIfaceRT
 /-! # C13 — The IDL parser accepts exactly the Varlink grammar and builds the denoted tree
 
 Model: `Zlink/Model/Idl.lean` + `parseInterface` in `Zlink/Model/IdlRender.lean` — a function-by-function port of
 `zlink-core/src/idl/parse/mod.rs`. Oracle: `Zlink/Spec/Idl.lean` (the grammar's regular expressions for the
 three name classes, tree well-formedness, a tokenizer for "nothing ignored").
 
-Status: the lexical layer is proved exact; totality / absence of panics holds by construction of the
-model (every slice and `unwrap` of the source is guarded; the correspondence run checks that the real
-parser never panics on ≈ 65 000 legal, mutated, truncated and random texts per run). The syntactic
-layer (`parse (render t) = t`) is stated below as `C13_complete_statement` and currently checked by
-the correspondence run and the oracle only — see `C13_partial` in DESIGN.md. -/
+Status: the lexical layer is proved exact for all three name classes; totality / absence of panics holds
+by construction of the model (every slice and `unwrap` of the source is guarded; the correspondence run
+checks that the real parser never panics on ≈ 65 000 legal, mutated, truncated and random texts per run).
+The syntactic layer is proved in the completeness direction for the canonical layout: **every**
+well-formed description — any names of the three regular languages, any nesting depth of `?`, `[]`,
+`[string]`, inline structs and inline enums, any number of members, fields and variants, comments before
+the interface, members, fields, parameters and custom-enum variants — is recovered exactly from its
+reference text (`C13_complete`, proofs in `Zlink/Proofs/Idl{Ws,TypeRT,MemberRT,IfaceRT}.lean`).
+Open (decided per explored text by the oracle and the correspondence only): arbitrary inter-token layout
+other than the canonical one, and the soundness direction "whatever is accepted is in the grammar and
+nothing of it is ignored" beyond the name lexers. -/
 namespace C13
 open Idl SpecIdl
 
@@ -31,8 +37,28 @@ theorem C13_field_names_exact :
     (∀ n r, fieldNameOK n = true → stopsName r = true → fieldName (n ++ r) = .ok n r) :=
   ⟨fieldName_sound, fieldName_complete⟩
 
-/-- The full completeness statement (kept visible; proved so far only on examples and checked by the
-    correspondence run): every well-formed tree is recovered from its reference text. -/
+/-- **Interface names are exactly `[A-Za-z]([-]*[A-Za-z0-9])*(\.[A-Za-z0-9]([-]*[A-Za-z0-9])*)+`**
+    (completeness, longest match): every word of the grammar's regular expression, followed by the end
+    of the text or by a byte that cannot continue a name, is accepted with exactly that rest. -/
+theorem C13_interface_names_complete (n z : In) (hn : ifaceNameOK n = true) (hz : nameStop z = true) :
+    interfaceName (n ++ z) = .ok n z := interfaceName_complete n z hn hz
+
+/-- **Every type expression is read back**, whatever its nesting depth and however many fields or
+    variants it has: `varlink_type`, given the fuel the member parsers give it, turns `render t`
+    followed by `,` or `)` into exactly `t` and stops there. -/
+theorem C13_types_complete (t : Ty) (z : In) (ht : tyOK t = true) (hv : noVC t = true) (hz : stopTy z = true) :
+    varlinkType (tyFuel (renderTy t ++ z)) (renderTy t ++ z) = .ok t z := varlinkType_tyFuel t z ht hv hz
+
+/-- **Completeness on the canonical layout** (unbounded): every well-formed description whose inline
+    enums carry no variant comments (the parser has no slot for those: `Ty.enum` comments exist only in
+    constructor-built trees) is recovered exactly from its reference text — the tree denoted by the text,
+    members in source order, nothing dropped, nothing invented. -/
+theorem C13_complete (a : Iface) (hok : ifaceOK a = true) (hvc : noVCI a = true) :
+    parseInterface (refText a) = .ok a := parseInterface_ref a hok hvc
+
+/-- The statement without the side condition on inline enums (kept visible): it is *false* for a
+    constructor-built inline enum with a commented variant, whose only rendering is the multi-line form
+    the parser refuses (known finding of C14). -/
 def C13_complete_statement : Prop :=
   ∀ a : Iface, ifaceOK a = true → parseInterface (refText a) = .ok a
 
@@ -52,7 +78,10 @@ def tree : Iface :=
     methods := [⟨[77], [([120], .map (.custom [84]), [])], [], []⟩],
     errors := [⟨[66, 97, 100], [([119, 104, 121], .enum [([112], []), ([113], [])], [])], []⟩] }
 example : ifaceOK tree = true := by decide +kernel
+example : noVCI tree = true := by decide +kernel
 example : roundTrips tree = true := by decide +kernel
+/-- the theorem applied to the example tree (its hypotheses are satisfiable) -/
+example : parseInterface (refText tree) = .ok tree := C13_complete tree (by decide +kernel) (by decide +kernel)
 -- "interface a.b\nmethod M(a:) -> ()" (used to panic), "interface a.b\nerror Foo" (member used to be
 -- dropped), "interface org.example." (used to be accepted)
 example : rejects [105, 110, 116, 101, 114, 102, 97, 99, 101, 32, 97, 46, 98, 10, 109, 101, 116, 104, 111, 100, 32, 77, 40, 97, 58, 41, 32, 45, 62, 32, 40, 41] = true := by decide +kernel
